@@ -535,7 +535,7 @@ pub fn run(args: &Args) {
         return;
     }
     // (1) structured offers × local configurations
-    let n = if args.tier_thorough { 20_000 } else { 1_500 };
+    let n = if args.tier_thorough { 60_000 } else { 1_500 };
     for i in 0..n {
         let id = format!("ans:{}:{}", args.seed, i);
         let ac = gen_case(args.seed, i);
